@@ -62,3 +62,15 @@ pub fn fwd_stub(input: &[u8]) -> Option<(u64, &[u8])> {
         None => None,
     }
 }
+
+/// cell-by-cell assignment of constant bytes. NOT `copy_from_slice`: a memcpy into a symbolic
+/// array turns every later read of that array (also of untouched cells) into a byte-extract term
+/// and CBMC loses the constants (measured: dlt_message on an 18-byte buffer went from "does not
+/// finish" to seconds).
+pub fn set_bytes(buf: &mut [u8], off: usize, src: &[u8]) {
+    let mut i = 0;
+    while i < src.len() {
+        buf[off + i] = src[i];
+        i += 1;
+    }
+}
